@@ -172,11 +172,14 @@ func fieldMarkers(pass *analysis.Pass, field *ast.Field, results *markers) {
 		}
 		results.insertFieldMarker(field, marker)
 
-		if obj, ok := pass.TypesInfo.Defs[field.Names[0]]; ok {
-			pass.ExportObjectFact(obj, &MarkerFact{
-				Identifier:  identifier,
-				Expressions: expressions,
-			})
+		// One fact per declared name; an embedded field has none.
+		for _, name := range field.Names {
+			if obj, ok := pass.TypesInfo.Defs[name]; ok {
+				pass.ExportObjectFact(obj, &MarkerFact{
+					Identifier:  identifier,
+					Expressions: expressions,
+				})
+			}
 		}
 	}
 }
